@@ -307,6 +307,39 @@ def auto_safe(f, kind, site):
                                  and peel(x[2][1])[0] == 'agg' and 'RangeFrom' in str(peel(x[2][1])[1]) and canon(peel(peel(x[2][1])[2][0])) == canon(i1)]
                         if tails:
                             return 'swap(i, i + position within xs[i..]): both below len of the same (not resized) vector'
+    def _found_position_in(recv_sig, own_block=None):
+        """on the way to b a `position(..)` over the same sequence was Some (so the sequence is non-empty and the payload < len), and the
+        sequence's length was not changed since"""
+        hits = []
+        some_names = {a[1][1] for _, a in f.guard_atoms(b) if a[0] == 'is' and a[2] == 'Some' and a[1][0] == 'call'}
+        for c in f.calls():
+            if c.name.split('::')[-1] in ('position', 'rposition') and c.name in some_names and c.args and recv_sig is not None and f.dominates(c.b, b) and c.b != b:
+                src = f.expr_operand(c.args[0], c.b, 'T')
+                subs = [y for y in walk(src) if y[0] == 'call' and y[1].split('::')[-1] in ('iter', 'iter_mut', 'into_iter') and y[2]]
+                if any(root_sig(y[2][0]) == recv_sig for y in subs):
+                    hits.append(c.b)
+        if not hits:
+            return False
+        for c in f.calls():
+            if c.args and c.b != b and c.b != own_block and c.name.split('::')[-1] in ('push', 'push_back', 'push_front', 'pop', 'pop_front', 'pop_back', 'insert', 'remove', 'swap_remove', 'truncate', 'clear',
+                                                                  'drain', 'retain', 'split_off', 'append', 'extend', 'resize') \
+                    and root_sig(f.expr_operand(c.args[0], c.b, 'T')) == recv_sig and any(f.dominates(h_, c.b) for h_ in hits) and f.dominates(c.b, b):
+                return False
+        return True
+    if kind == 'swap' and hasattr(site, 'args') and len(site.args) == 3:
+        recv_s = root_sig(f.expr_operand(site.args[0], b, 'T'))
+        def small(t):
+            t = peel(t)
+            if t == ('int', 0):
+                return True
+            return t[0] == 'field' and t[2] == '0' and peel(t[1])[0] == 'as' and peel(peel(t[1])[1])[0] == 'call' and peel(peel(t[1])[1])[1].split('::')[-1] == 'position'
+        if small(f.expr_operand(site.args[1], b, 'T')) and small(f.expr_operand(site.args[2], b, 'T')) and _found_position_in(recv_s):
+            return 'swap(0 | found position, ..) within a sequence in which position(..) just succeeded (non-empty, payload < len, length unchanged)'
+    if kind in ('unwrap', 'expect') and hasattr(site, 'args') and site.args:
+        recv0 = peel(f.expr_operand(site.args[0], b, 'T'))
+        if recv0[0] == 'call' and recv0[1].split('::')[-1] in ('pop_front', 'pop_back', 'pop', 'front', 'back', 'first', 'last') and recv0[2] and \
+                _found_position_in(root_sig(recv0[2][0]), recv0[3] if len(recv0) > 3 else None):
+            return 'first/last element of a sequence in which position(..) just succeeded (non-empty, length unchanged since)'
     if kind in ('unwrap', 'expect') and hasattr(site, 'args') and site.args:
         recv = peel(f.expr_operand(site.args[0], b, 'T'))
         if recv[0] == 'call' and recv[1].split('::')[-1] in ('split_first', 'split_last', 'first', 'last', 'first_mut', 'last_mut') and recv[2]:
@@ -418,6 +451,21 @@ def r1_panic_inventory(ctx):
                     ent = TABLE[tk]
                     key = tk
                     break
+            if ent is None:
+                # ... or the audited function was re-shaped into a new function (a method of a new private type) that the pinned callers
+                # of the old one reach now: the same construct (same kind, provenance and - for an assertion - message) keeps its entry;
+                # entries with a dominating-test justification are re-checked on the new body below
+                base_fns = getattr(P, 'baseline_fns', None) or {}
+                is_new = f.key not in (P.baseline_callers.keys() if hasattr(P, 'baseline_callers') else ()) and not any(f.key in v for v in getattr(P, 'baseline_callers', {}).values())
+                for tk in TABLE:
+                    tf, trest = tk.split('|', 1)
+                    if trest == rest and tf != fk0 and (ND + tf) not in P.fns and is_new:
+                        old_callers = set(getattr(P, 'baseline_callers', {}).get(ND + tf, []))
+                        reach = P.reachable_from([c for c in old_callers if c in P.fns])[0] if old_callers else set()
+                        if f.key in reach or (f.root or f.key) in reach:
+                            ent = TABLE[tk]
+                            key = tk
+                            break
         if ent is None:
             why = auto_safe(f, kind, site)
             if why:
